@@ -20,3 +20,23 @@ def _fail_if_interpolation_axes_are_not_last(space_info):
         if sorted(common) != sorted(space_info.axis_names[-n_common:]):
             raise ValueError('Interpolation axes need to be the last entries in axis_order.')
 
+
+def get_function_representation(space_info, name_of_values_on_grid, *, input_prefix=''):
+    _fail_if_interpolation_axes_are_not_last(space_info)
+    _need_interpolation = bool(space_info.interpolation_info)
+    funcs = {}
+    for var in space_info.lookup_info:
+        funcs[f'__{var}_pos__'] = _get_label_translator(in_name=input_prefix + var)
+    for indexer_info in space_info.indexer_infos:
+        funcs[f'__{indexer_info.out_name}_pos__'] = _get_lookup_function(array_name=indexer_info.name, axis_names=[f'__{var}_pos__' for var in indexer_info.axis_names])
+    _internal_axes = [f'__{var}_pos__' for var in space_info.axis_names]
+    _lookup_axes = [var for var in _internal_axes if var in funcs]
+    _out_name = '__interpolation_data__' if _need_interpolation else '__fval__'
+    funcs[_out_name] = _get_lookup_function(array_name=name_of_values_on_grid, axis_names=_lookup_axes)
+    if _need_interpolation:
+        for var, grid_spec in space_info.interpolation_info.items():
+            funcs[f'__{var}_coord__'] = _get_coordinate_finder(in_name=input_prefix + var, grid=grid_spec)
+        _interpolation_axes = [f'__{var}_coord__' for var in space_info.axis_names if var in space_info.interpolation_info]
+        funcs['__fval__'] = _get_interpolator(name_of_values_on_grid='__interpolation_data__', axis_names=_interpolation_axes)
+    return concatenate_functions(functions=funcs, targets='__fval__')
+
